@@ -1,6 +1,7 @@
 import PewDriver.Util
 import PewModel.Thermo
 import Std.Data.HashMap
+import Std.Data.HashSet
 open Lean
 namespace PewDriver.C03
 open PewDriver Pew.Thermo
@@ -34,6 +35,33 @@ def parseTokens (j : Json) : R (Array (Array (Array (Array String)))) := do
   let l ← asList (asList (asList (asList asStr))) j
   pure (l.map (fun a => (a.map (fun b => (b.map (·.toArray)).toArray)).toArray)).toArray
 
+def parseTable (req : Json) : R (Std.HashMap String V) := do
+  let tbl ← getList (fun j => do
+    let a ← asArr j
+    match a with
+    | [k, v] => do pure ((← asStr k), (← asOpt asRat v))
+    | _ => throw "bad parse table entry") req "parse"
+  pure (Std.HashMap.ofList tbl)
+
+def optDelim (req : Json) : R (Option Char) := do
+  let j ← fld req "delimiter"
+  match j with
+  | .null => pure none
+  | _ => do
+    let d ← asStr j
+    match d.toList with
+    | [c] => pure (some c)
+    | _ => throw "delimiter must be one character"
+
+/-- every string the external conversions can be asked about for this table -/
+def candidates (t : Table) : List String :=
+  let raw := t.flatten
+  let g := fun b => (t.map (fun r => gfSplit (r.map (fixDec b)))).flatten
+  let all := raw ++ raw.map (trunc 16) ++ g false ++ g true
+  let (_, out) := all.foldl (fun (acc : Std.HashSet String × List String) s =>
+    if acc.1.contains s then acc else (acc.1.insert s, s :: acc.2)) (({} : Std.HashSet String), [])
+  out.reverse
+
 def handle (op : String) (req : Json) : R Json := do
   match op with
   | "c03.acq" =>
@@ -47,15 +75,10 @@ def handle (op : String) (req : Json) : R Json := do
                     match d.toList with
                     | [c] => pure c
                     | _ => throw "delimiter must be one character" : R Char)
-    let tbl ← getList (fun j => do
-      let a ← asArr j
-      match a with
-      | [k, v] => do pure ((← asStr k), (← asOpt asRat v))
-      | _ => throw "bad parse table entry") req "parse"
+    let hm ← parseTable req
     let value : Nat → Nat → Nat → Nat → String := fun i s e c =>
       ((((toks[i]?).bind (·[s]?)).bind (·[e]?)).bind (·[c]?)).getD ""
     let acq : Acq := { samples := samples, nscans := nscans, elements := elements, channels := channels, value := value }
-    let hm : Std.HashMap String V := Std.HashMap.ofList tbl
     -- every token the readers can meet must be in the table of float()
     for i in List.range samples.length do
       for s in List.range nscans do
@@ -63,9 +86,24 @@ def handle (op : String) (req : Json) : R Json := do
           for c in List.range channels.length do
             let t := value i s e c
             if !(hm.contains t) || !(hm.contains (fixDec true t)) then throw s!"token {t} not in the parse table"
-    let x : Ext V := { parse := fun t => ((hm.get? t).getD none), readNat := fun t => t.toNat? }
-    let tc := renderCols toString acq
-    let tr := renderRows toString acq
+    let x : Ext V := { parse := fun t => ((hm.get? t).getD none), readInt := fun t => t.toInt? }
+    let explicit ← getBool req "explicit_delimiter"
+    let tc0 := renderCols toString acq
+    let tr0 := renderRows toString acq
+    -- the text of the two files; the readers get its lines split again (at the delimiter passed on, or at the first
+    -- character of the file), unless a line is too long for the structurally recursive splitter of the model
+    let xc := renderText delim tc0
+    let xr := renderText delim tr0
+    let short := (xc ++ xr).all (fun l => l.length < 20000)
+    let resplit := fun (lines : List String) (t0 : Table) => (do
+      if !short then pure t0 else
+      match tableOf (if explicit then some delim else none) lines with
+      | some t => pure t
+      | none => throw "an export without a first character" : R Table)
+    let tc ← resplit xc tc0
+    let tr ← resplit xr tr0
+    let ldText := fun (lines : List String) (t0 : Table) (ua : Bool) =>
+      if short then loadText x lines ua else load x delim t0 ua
     let chanRes := channels.zipIdx.map (fun (ch, ci) =>
       jObj [("channel", jStr ch),
             ("rows", jImg (readRows x comma ch tr)),
@@ -75,19 +113,67 @@ def handle (op : String) (req : Json) : R Json := do
     let missRes := missing.map (fun ch =>
       jObj [("channel", jStr ch), ("rows", jImg (readRows x comma ch tr)), ("cols", jImg (readCols x comma ch tc))])
     let timeIdx := channels.findIdx (· == "Time")
-    let specScan : Json := if timeIdx < channels.length
-      then jPVal (Pew.CsvDir.npRound 4 (specScantime x comma acq timeIdx)) else Json.null
+    -- the specification of the parameters: from the acquisition (the ground truth), never from a reader
+    let specPar : Json := if timeIdx < channels.length
+      then jParams (some (specParams x comma acq timeIdx)) else Json.null
     pure (jObj [("table_cols", jTable tc), ("table_rows", jTable tr),
+                ("text_cols", jList jStr xc), ("text_rows", jList jStr xr), ("resplit", jBool short),
                 ("channels", Json.arr chanRes.toArray), ("missing", Json.arr missRes.toArray),
                 ("params_rows", jParams (readParams x true comma tr)),
                 ("params_cols", jParams (readParams x false comma tc)),
-                ("spec_scantime", specScan),
+                ("spec_params", specPar),
                 ("sniff_rows", jFmt (sniff tr)), ("sniff_cols", jFmt (sniff tc)),
-                ("load_rows", jLoad (load x delim tr false)), ("load_cols", jLoad (load x delim tc false)),
-                ("load_rows_analog", jLoad (load x delim tr true)), ("load_cols_analog", jLoad (load x delim tc true))])
+                ("spec_sniff_rows", jFmt .rows), ("spec_sniff_cols", jFmt .columns),
+                ("other_rows", jBool (otherFile tr)), ("other_cols", jBool (otherFile tc)),
+                ("load_rows", jLoad (ldText xr tr0 false)), ("load_cols", jLoad (ldText xc tc0 false)),
+                ("load_rows_analog", jLoad (ldText xr tr0 true)), ("load_cols_analog", jLoad (ldText xc tc0 true))])
   | "c03.sniff" =>
+    -- `lines`: the lines of the decoded text; the sniffer looks for a substring of the whole line
     let lines ← getList asStr req "lines"
-    pure (jObj [("model", jFmt (sniff (lines.map (fun l => [l]))))])
+    let t : Table := lines.map (fun l => [l])
+    pure (jObj [("model", jFmt (sniff t)), ("other", jBool (otherFile t)), ("spec", jFmt specSniffOther)])
+  | "c03.fields" =>
+    let lines ← getList asStr req "lines"
+    let delim ← optDelim req
+    -- the explicit readers split at `delimiter`, `load` at the first character of the file
+    let c1 := match tableOf delim lines with | none => [] | some t => candidates t
+    let c2 := match tableOf none lines with | none => [] | some t => candidates t
+    pure (jObj [("fields", jList jStr (c1 ++ c2).eraseDups)])
+  | "c03.text" =>
+    -- a decoded text given as its lines (terminators kept); `delimiter` as passed to the explicit readers
+    let lines ← getList asStr req "lines"
+    let delim ← optDelim req
+    let comma ← getBool req "comma"
+    let hm ← parseTable req
+    let ints ← getList (fun j => do
+      let a ← asArr j
+      match a with
+      | [k, v] => do pure ((← asStr k), (← asOpt asInt v))
+      | _ => throw "bad int table entry") req "ints"
+    let hi : Std.HashMap String (Option Int) := Std.HashMap.ofList ints
+    let x : Ext V := { parse := fun t => ((hm.get? t).getD none), readInt := fun t => ((hi.get? t).getD none) }
+    let sn := jFmt (sniff (lines.map (fun l => [l])))
+    let ld := fun ua => jLoad (loadText x lines ua)
+    match tableOf delim lines with
+    | none =>
+      -- `delimiter = line[0]` of an empty first line: every explicit reader raises
+      let e := jImg (none : Option (Img V))
+      pure (jObj [("rows.data.Counter", e), ("rows.data.Analog", e), ("cols.data.Counter", e), ("cols.data.Analog", e),
+                  ("rows.params", jParams none), ("cols.params", jParams none),
+                  ("format", sn), ("load.Counter", ld false), ("load.Analog", ld true)])
+    | some t =>
+      for f in candidates t do
+        if !(hm.contains f) || !(hi.contains f) then throw s!"field {f} not in the conversion tables"
+      -- `load` splits at the first character of the file whatever was passed to the explicit readers
+      match tableOf none lines with
+      | none => pure ()
+      | some t' =>
+        for f in candidates t' do
+          if !(hm.contains f) || !(hi.contains f) then throw s!"field {f} not in the conversion tables"
+      pure (jObj [("rows.data.Counter", jImg (readRows x comma "Counter" t)), ("rows.data.Analog", jImg (readRows x comma "Analog" t)),
+                  ("cols.data.Counter", jImg (readCols x comma "Counter" t)), ("cols.data.Analog", jImg (readCols x comma "Analog" t)),
+                  ("rows.params", jParams (readParams x true comma t)), ("cols.params", jParams (readParams x false comma t)),
+                  ("format", sn), ("load.Counter", ld false), ("load.Analog", ld true)])
   | _ => throw s!"unknown op {op}"
 
 end PewDriver.C03
